@@ -185,6 +185,48 @@ def progress_records(rng):
     return out
 
 
+def access_records(rng):
+    """jaccarddist_matrix through a logging proxy container and a recording meter: the chunk access protocol of BulkDist"""
+    from gambit.metric import jaccarddist_matrix
+    from gambit.sigs.base import AbstractSignatureArray, SignatureList
+    from gambit.kmers import KmerSpec as KS
+    out = []
+    sigs = [np.array(sorted(rng.sample(range(500), rng.randint(0, 12))), dtype='u2') for _ in range(6)]
+
+    class Proxy(AbstractSignatureArray):
+        def __init__(self, inner, log):
+            self.inner, self.log = inner, log
+            self.kmerspec, self.dtype = inner.kmerspec, inner.dtype
+
+        def __len__(self):
+            return len(self.inner)
+
+        def __getitem__(self, ix):
+            if isinstance(ix, slice):
+                ids = list(range(*ix.indices(len(self.inner))))
+            elif isinstance(ix, (int, np.integer)):
+                return self.inner[ix]
+            else:
+                ids = [int(i) for i in ix]
+            self.log.append(dict(e='get', idx=ids, d=0))
+            return self.inner[ix]
+    for sel in (None, [5, 0, 0, 3, 2], [1], []):
+        for size in (None, 1, 2, 4, 9):
+            for nq in (1, 2):
+                log = []
+
+                class M(RecMeter):
+                    def increment(self, delta=1):
+                        log.append(dict(e='inc', idx=[], d=int(delta)))
+
+                    def close(self):
+                        pass
+                inner = SignatureList(sigs, KS(8, 'ATG'))
+                jaccarddist_matrix(sigs[:nq], Proxy(inner, log), ref_indices=sel, chunksize=size, progress=lambda total, initial=0, **kw: M(total, dict(events=[])))
+                out.append(dict(op='access', sel=sel if sel is not None else list(range(6)), size=size or 0, nq=nq, events=log))
+    return out
+
+
 def run(ctx):
     ctx.mc('Progress', 'MC_Progress.cfg', workers=4, note='progress-meter protocol: bounded, monotone, nothing after close, complete on return')
     ctx.mc('SigList', 'MC_SigList.cfg', workers=8, count=True, note='(a state-machine run so that the evidence carries states/transitions)')
@@ -221,6 +263,7 @@ def run(ctx):
             for rq in (False, True):
                 recs.append(paramgroup_record(list(present), ex, rq))
     recs += progress_records(rng)
+    recs += access_records(rng)
     n, bad = tlc.judge('Judge_EXT', recs)
     ctx.traces += n
     ctx.evaluations += n
